@@ -46,6 +46,10 @@ pub enum Op {
 	GetMutOrInsertWith(String),
 	CloneContinue,
 	CloneAndDropOriginalLater,
+	/// `fresh.clone_from(&obj)` into a new empty object, continue on it.
+	CloneFromIntoFresh,
+	/// `used.clone_from(&obj)` into an object that already holds other entries.
+	CloneFromIntoUsed,
 	IntoIterRebuild,
 }
 
@@ -357,6 +361,21 @@ pub fn apply(op: &Op, obj: &mut Object, m: &mut Model, fresh: &mut Fresh) -> Res
 			check_state(obj, m).map_err(|e| format!("original after clone: {}", e))?;
 			*obj = c;
 		}
+		Op::CloneFromIntoFresh => {
+			let mut t = Object::new();
+			t.clone_from(obj);
+			check_state(obj, m).map_err(|e| format!("source after clone_from: {}", e))?;
+			*obj = t;
+		}
+		Op::CloneFromIntoUsed => {
+			let mut t = Object::new();
+			for i in 0..(3 + m.entries.len() % 11) {
+				t.push(key(&format!("\u{1}old{}", i % 5)), Value::Null);
+			}
+			t.clone_from(obj);
+			check_state(obj, m).map_err(|e| format!("source after clone_from: {}", e))?;
+			*obj = t;
+		}
 		Op::CloneAndDropOriginalLater => {
 			// mutate the original after cloning; the clone must be unaffected
 			let c = obj.clone();
@@ -428,6 +447,22 @@ pub fn check_state(obj: &Object, m: &Model) -> Result<StateStats, String> {
 		let got: Vec<(usize, (String, Value))> = obj.get_entries_with_index(k).map(|(i, e)| (i, pair(e))).collect();
 		if got != scan {
 			return Err(format!("get_entries_with_index({:?}) = {:?}, linear scan finds {:?}", k, got, scan));
+		}
+		if pos.len() >= 2 {
+			// every way of consuming the lookup iterators must agree (nth, skip, step_by, count, last, size_hint)
+			queries += crate::monitor::check_iter(&format!("indexes_of({:?})", k), &|| obj.indexes_of(k), &pos)?;
+			let ptrs: Vec<usize> = pos.iter().map(|&i| &obj.entries()[i].value as *const Value as usize).collect();
+			queries += crate::monitor::check_iter(&format!("get({:?})", k), &|| obj.get(k).map(|v| v as *const Value as usize), &ptrs)?;
+			let withidx: Vec<(usize, usize)> = pos.iter().map(|&i| (i, &obj.entries()[i] as *const Entry as usize)).collect();
+			queries += crate::monitor::check_iter(
+				&format!("get_entries_with_index({:?})", k),
+				&|| obj.get_entries_with_index(k).map(|(i, e)| (i, e as *const Entry as usize)),
+				&withidx,
+			)?;
+			let eptrs: Vec<usize> = withidx.iter().map(|x| x.1).collect();
+			queries += crate::monitor::check_iter(&format!("get_entries({:?})", k), &|| obj.get_entries(k).map(|e| e as *const Entry as usize), &eptrs)?;
+			let vwi: Vec<(usize, usize)> = pos.iter().zip(&ptrs).map(|(i, p)| (*i, *p)).collect();
+			queries += crate::monitor::check_iter(&format!("get_with_index({:?})", k), &|| obj.get_with_index(k).map(|(i, v)| (i, v as *const Value as usize)), &vwi)?;
 		}
 		match (scan.len(), obj.get_unique(k)) {
 			(0, Ok(None)) => (),
